@@ -493,13 +493,16 @@ def _finalizer_dask_op(
     if footer_bytes:
         _root.append(footer_bytes)
 
+    # first part id was reserved by mpu_write for header/left-over data
+    first_part = 1 if write is None else write.min_part
+
     if hdr_bytes:
-        hdr = MPUChunk(1, 1)
+        hdr = MPUChunk(first_part, 1)
         hdr.append(hdr_bytes)
         _root = MPUChunk.merge(hdr, _root)
 
     if write is None:
         return _root
 
-    _, rr = _root.flush(write, leftPartId=1, finalise=True)
+    _, rr = _root.flush(write, leftPartId=first_part, finalise=True)
     return rr
